@@ -27,6 +27,7 @@ type builtWorld struct {
 	W           *sim.World
 	S           *gen.SchedWorld
 	Pools       map[string]*v1.NodePool
+	Unready     map[string]*v1.NodePool // pools that exist but are not Ready (gen.SchedWorld.PoolReady)
 	Nodes       map[string]*sim.BuiltNode
 	Originals   map[types.UID]*corev1.Pod // every pod the harness created, as created
 	DaemonSets  []*appsv1.DaemonSet
@@ -71,12 +72,28 @@ func build(s *gen.SchedWorld, c *ev.Ctx) *builtWorld {
 
 func buildWith(s *gen.SchedWorld, c *ev.Ctx, so sim.Options) *builtWorld {
 	w := sim.New(so)
-	b := &builtWorld{W: w, S: s, Pools: map[string]*v1.NodePool{}, Nodes: map[string]*sim.BuiltNode{}, Originals: map[types.UID]*corev1.Pod{}}
+	b := &builtWorld{W: w, S: s, Pools: map[string]*v1.NodePool{}, Unready: map[string]*v1.NodePool{}, Nodes: map[string]*sim.BuiltNode{}, Originals: map[types.UID]*corev1.Pod{}}
 	w.ApplyNodeClass()
 	w.Provider.Default = s.Catalog
 	for _, np := range s.Pools {
 		if err := np.DeepCopy().RuntimeValidate(w.Ctx); err != nil {
 			c.Class("pool_rejected_by_validation")
+			continue
+		}
+		if why := s.PoolReady[np.Name]; why != "" {
+			// a pool that is not Ready (its NodeClass is not, or nothing has reconciled it yet) takes no part in provisioning
+			applied := w.ApplyPool(np)
+			switch why {
+			case "unknown":
+				applied.StatusConditions().SetUnknown(v1.ConditionTypeNodeClassReady)
+			case "false":
+				applied.StatusConditions().SetFalse(v1.ConditionTypeNodeClassReady, "NodeClassNotReady", "node class is not ready")
+			case "none":
+				applied.Status.Conditions = nil
+			}
+			w.Apply(applied)
+			b.Unready[np.Name] = applied
+			c.Class("pool_not_ready:" + why)
 			continue
 		}
 		b.Pools[np.Name] = w.ApplyPool(np)
